@@ -8,9 +8,18 @@
 EXTENDS Frags, Json
 CONSTANTS FragNames, MaxK
 VARIABLES d
-Init == d \in (FragNames \X (0..MaxK)) \cup {<<c, -1>> : c \in {"none", "ortho", "tri", "trineg"}}
+\* a large, sparsely bonded structure: the three atoms and two bonds of F3p followed by n-3 unbonded F atoms
+BigSparse(n) ==
+  LET A == Inst("F3p", 0)   B == Inst("F1p", 0)
+  IN [A EXCEPT !.ty = A.ty \o [i \in 1..(n - 3) |-> Len(A.tel)],
+               !.q = [i \in 1..n |-> i], !.grp = [i \in 1..n |-> i % 4],
+               !.pos = A.pos \o [i \in 1..(n - 3) |-> <<i % 40, 10 + (i \div 40), 9>>],
+               !.xa = [i \in 1..n |-> <<>>],
+               !.tel = A.tel \o B.tel, !.tmass = A.tmass \o B.tmass, !.tlab = A.tlab \o B.tlab, !.tpc = A.tpc \o B.tpc]
+Init == d \in (FragNames \X (0..MaxK)) \cup {<<"BIGSPARSE", 160>>} \cup {<<c, -1>> : c \in {"none", "ortho", "tri", "trineg"}}
 Next == UNCHANGED d
 Spec == Init /\ [][Next]_<<d>>
-EmitInv == IF d[2] >= 0 THEN PrintT(<<"INST", ToJson([f |-> d[1], k |-> d[2], flav |-> Flavour(d[1]), K |-> Inst(d[1], d[2])])>>)
+EmitInv == IF d[1] = "BIGSPARSE" THEN PrintT(<<"BIG", ToJson([n |-> d[2], K |-> BigSparse(d[2])])>>)
+           ELSE IF d[2] >= 0 THEN PrintT(<<"INST", ToJson([f |-> d[1], k |-> d[2], flav |-> Flavour(d[1]), K |-> Inst(d[1], d[2])])>>)
            ELSE PrintT(<<"CELL", ToJson([name |-> d[1], cell |-> CellOf(d[1])])>>)
 =============================================================================
